@@ -165,9 +165,21 @@ def check_C02(tier):
     return run_level_check("C02", tier, ["cons"], design_cfgs=())
 
 
+def _inductive(v, prop):
+    """unbounded-parameter inductive invariant of the controller skeleton (Apalache)"""
+    from .apalache import inductive_controller
+    res = inductive_controller()
+    v.coverage["inductive_invariant_apalache"] = res
+    for ob in res["obligations"]:
+        if not ob["discharged"]:
+            v.violation(f"{prop}.design_inductive_invariant", site="BadsCtlApa.tla", where=ob["name"])
+
+
 def check_C03(tier):
-    return run_level_check("C03", tier, ["core_det", "core_noisy", "cons"],
-                           design_cfgs=("BadsRun.cfg", "BadsRun_noisy.cfg"))
+    v = run_level_check("C03", tier, ["core_det", "core_noisy", "cons"],
+                        design_cfgs=("BadsRun.cfg", "BadsRun_noisy.cfg"))
+    _inductive(v, "C03")
+    return v
 
 
 def check_C04(tier):
@@ -181,8 +193,10 @@ def check_C05(tier):
 
 
 def check_C13(tier):
-    return run_level_check("C13", tier, ["core_det", "core_noisy"],
-                           design_cfgs=("BadsRun.cfg", "BadsRun_noisy.cfg"))
+    v = run_level_check("C13", tier, ["core_det", "core_noisy"],
+                        design_cfgs=("BadsRun.cfg", "BadsRun_noisy.cfg"))
+    _inductive(v, "C13")
+    return v
 
 
 def check_C19run(tier):
